@@ -148,12 +148,36 @@ class C06(Prop):
         return out
 
     def cases(self, tier, rng):
+        L = []
+        for l in self._cases(tier, rng):
+            w = l.split(" ")
+            if w[2] == "g1,wc=0":
+                # no write credit by default; grant it to every stream except the grease stream (the 4th
+                # unidirectional stream the endpoint opens), whose frame can then never be written
+                own = [3, 7, 11] if w[1] == "server" else [2, 6, 10]
+                ops, nreq = [], 0
+                for op in w[3:]:
+                    ops.append(op)
+                    m = re.match(r"^o(\d+)$", op)
+                    if m and int(m.group(1)) % 4 == 0:
+                        ops.append("gw%s:100000" % m.group(1))
+                    if op.startswith("snd.R"):
+                        ops.append("gw%d:100000" % (4 * nreq))
+                        nreq += 1
+                l = " ".join(w[:3] + ["gw%d:100000" % i for i in own] + ops)
+            L.append(l)
+        return L
+
+    def _cases(self, tier, rng):
         big = tier == "thorough"
         L = []
         faults_stream = ["f%d", "r%d:0", "r%d:268", "x%d:7"]
         faults_conn = ["C0", "C256", "C%d" % (2**62 - 1), "T"]
         for role in ("server", "client"):
-            cfgs = ["g0", "g0,seed=%d" % rng.randrange(1, 1000), "g1", "g0,mfs=40", "g0,wt=1,ec=1,dg=1"]
+            # `g1,uc=3`: the peer grants exactly the three unidirectional streams RFC 9114 6.2 requires and never
+            # more, so the optional grease stream can never be opened; nothing may wait for it
+            cfgs = ["g0", "g0,seed=%d" % rng.randrange(1, 1000), "g1", "g0,mfs=40", "g0,wt=1,ec=1,dg=1", "g1,uc=3",
+                    "g1,uc=3,seed=%d" % rng.randrange(1, 1000), "g1,wc=0"]
             for base in self.base_scenarios(rng, role):
                 cfg = rng.choice(cfgs)
                 L.append("adv %s %s %s" % (role, cfg, " ".join(base)))
@@ -165,6 +189,23 @@ class C06(Prop):
                         picks += [f % s for f in faults_stream for s in sids[:2]]
                     for f in picks:
                         L.append("adv %s %s %s" % (role, cfg, " ".join(base[:i] + [f] + base[i:])))
+            # depth: very long runs of the smallest legal items (a peer chooses their number): empty DATA frames,
+            # empty unknown/reserved frames, one-byte chunks; recursion or quadratic work per item shows as abort / hang
+            for N in ([5000, 200000] if not big else [5000, 60000, 200000, 1000000]):
+                for unit in ("0000", "2100", "402100"):
+                    run = unit * N
+                    if role == "server":
+                        L.append("adv server g0 conn.AL o2 s2:000400 o0 s0:%s%s000568656c6c6f f0 q0.res q0.rm q0.sr:200 q0.fi"
+                                 % (REQ_HEADERS, run))
+                        if unit != "0000":
+                            L.append("adv server g0 conn.AL o2 s2:000400%s070100 o0 s0:%s f0 q0.res q0.rm q0.sr:200 q0.fi conn.A"
+                                     % (run, REQ_HEADERS))
+                    else:
+                        L.append("adv client g0 drv.W o3 s3:000400 snd.R:GET:68747470733a2f2f612e622f78:- q0.fi s0:%s%s000568656c6c6f f0 q0.rr q0.rm"
+                                 % (RESP_HEADERS, run))
+                        if unit != "0000":
+                            L.append("adv client g0 drv.W o3 s3:000400%s snd.R:GET:68747470733a2f2f612e622f78:- q0.fi s0:%s f0 q0.rr q0.rm"
+                                     % (run, RESP_HEADERS))
             # arbitrary / mutated bytes on every kind of stream
             n = 12000 if big else 3000
             for _ in range(n):
